@@ -281,6 +281,9 @@ func (tb *LTable) RawGet(key LValue) LValue {
 
 // RawGetInt returns an LValue at position `key` without __index metamethod.
 func (tb *LTable) RawGetInt(key int) LValue {
+	if key < 1 || key >= MaxArrayIndex {
+		return tb.RawGetH(LNumber(key))
+	}
 	if tb.array == nil {
 		return LNil
 	}
